@@ -75,7 +75,7 @@ check('C14', 'Hypothesis-generated paragraphs from a tricky-token vocabulary, fi
 check('C11', 'bounded exhaustive operation histories + Hypothesis-drawn histories + hypothesis.stateful RuleBasedStateMachine, with fault injection at every token-list position; fresh-interpreter baseline as reference model',
       'enumeration-pool + hypothesis-sharded (stateful)',
       'Histories over {use renderer, enter/render/exit, a documented refusal half-way through rendering, parse that raises inside a custom block/span token added by hand at every list position (inside renderers with and without token types of their own), bare '
-      'parse, Scheme} are executed in-process; after every step the token lists must equal the defaults and a battery of 24 probe documents (ten of them put one string into every syntactic context that processes it, to expose state keyed by content) '
+      'parse, Scheme} are executed in-process; after every step the token lists must equal the defaults and a battery of 29 probe documents (ten of them put one string into every syntactic context that processes it, to expose state keyed by content) '
       '(HtmlRenderer output + dump of a bare parse) and the operation\'s own output must equal reference values, each computed in its own pristine process. '
       'All length-2 histories over the full alphabet and all length-4 (5 thorough) histories over 8 state-touching operations are enumerated.',
       'Leaks are visible only through the probe battery and token lists; longer histories are sampled, not enumerated.',
